@@ -89,7 +89,7 @@ PROPS['C20'] = dict(
     assumptions=STD,
 )
 PROPS['C04'] = dict(
-    rules=kernel_pack(('Bfs',), FLAVOURS, 'path') + [_r('RESMAP', dp.result_map, FLAVOURS, ('Bfs',), 'path'), _r('TR1', dp.tr1, DIRECTED, ('Bfs',), 'path'), _r('METHOD', rk.method, FLAVOURS), _r('BT', rb.bt, FLAVOURS, only=BT5), _r('PATH', rb.path_api, FLAVOURS)],
+    rules=kernel_pack(('Bfs',), FLAVOURS, 'path') + [_r('RESMAP', dp.result_map, FLAVOURS, ('Bfs',), 'path'), _r('TR1', dp.tr1, DIRECTED, ('Bfs',), 'path'), _r('METHOD', rk.method, FLAVOURS), _r('BT', rb.bt, FLAVOURS, only=BT5), _r('PATH', rb.path_api, FLAVOURS), _r('PATH-hint', rb.path_hint, FLAVOURS)],
     explanation='Breadth-first kernels (12) and their entry points: FIFO frontier (BFS1), discovery discipline (DISC i-vii), exhaustive expansion (EXH), '
                 'callback-first (EXEC1), orientation (TR0/TR1), seeding (INIT), result mapping (RESMAP), back-tracking (BT) decided on MIR by dominance and provenance. Entry points only read the search configuration (CONF) and answer through a kernel run or a shortcut that is sound for every arm (ENTRY-PASS).',
     decides='the structural premises of the textbook BFS argument on every path of every kernel and entry point',
@@ -98,7 +98,7 @@ PROPS['C04'] = dict(
 )
 
 PROPS['C05'] = dict(
-    rules=kernel_pack(('Dfs',), FLAVOURS, 'path') + [_r('RESMAP', dp.result_map, FLAVOURS, ('Dfs',), 'path'), _r('TR1', dp.tr1, DIRECTED, ('Dfs',), 'path'), _r('METHOD', rk.method, FLAVOURS), _r('BT', rb.bt, FLAVOURS, only=BT5), _r('PATH', rb.path_api, FLAVOURS)],
+    rules=kernel_pack(('Dfs',), FLAVOURS, 'path') + [_r('RESMAP', dp.result_map, FLAVOURS, ('Dfs',), 'path'), _r('TR1', dp.tr1, DIRECTED, ('Dfs',), 'path'), _r('METHOD', rk.method, FLAVOURS), _r('BT', rb.bt, FLAVOURS, only=BT5), _r('PATH', rb.path_api, FLAVOURS), _r('PATH-hint', rb.path_hint, FLAVOURS)],
     explanation='Depth-first kernels (12 recursive) and entries: LIFO frontier with push(FAR) immediately followed by the recursive call (DFS1), discovery discipline (DISC), no early exit and '
                 'found-propagation (EXH), callback-first (EXEC1), orientation, seeding, result mapping and back-tracking (BT). Entry points only read the search configuration (CONF) and answer through a kernel run or a sound shortcut (ENTRY-PASS); FOUND behind a descent is confined to its success outcome (EXH).',
     decides='the structural premises of "DFS finds a simple path iff reachable" on every path of every kernel',
@@ -107,7 +107,7 @@ PROPS['C05'] = dict(
 )
 PROPS['C06'] = dict(
     rules=kernel_pack(('Pfs',), FLAVOURS, 'path') + [_r('PFS1', dp.pfs1, FLAVOURS, 'path'), _r('RESMAP', dp.result_map, FLAVOURS, ('Pfs',), 'path'), _r('TR1', dp.tr1, DIRECTED, ('Pfs',), 'path'),
-                                           _r('METHOD', rk.method, FLAVOURS), _r('BT', rb.bt, FLAVOURS, only=BT5), _r('PATH', rb.path_api, FLAVOURS), _r('ORD-NODE', rm.ord_node, FLAVOURS), _r('PFS-SEARCH', rm.pfs_search, FLAVOURS), _r('OPT', dp.opt_rules, FLAVOURS, 'priority')],
+                                           _r('METHOD', rk.method, FLAVOURS), _r('BT', rb.bt, FLAVOURS, only=BT5), _r('PATH', rb.path_api, FLAVOURS), _r('PATH-hint', rb.path_hint, FLAVOURS), _r('ORD-NODE', rm.ord_node, FLAVOURS), _r('PFS-SEARCH', rm.pfs_search, FLAVOURS), _r('OPT', dp.opt_rules, FLAVOURS, 'priority')],
     explanation='Priority-first kernels (12) and entries: BinaryHeap pop/push with Reverse exactly on the Min arms (PFS-FRONT, PFS1), discovery discipline incl. closing edge recorded before '
                 'FOUND (DISC iv/v), no early exit, node ordering by value identically through Ord and PartialOrd and equality by key (ORD-NODE), search = last node of search_path. min()/max() store the priority their name says (OPT); kernels and entries only read the configuration (CONF).',
     decides='heap discipline, Min/Max dispatch, comparison impls, discovery discipline',
@@ -136,7 +136,7 @@ PROPS['C08'] = dict(
     assumptions=STD,
 )
 PROPS['C09'] = dict(
-    rules=kernel_pack(('Bfs', 'Dfs', 'Pfs'), FLAVOURS, 'cycle') + [_r('RESMAP', dp.result_map, FLAVOURS, ('Bfs', 'Dfs', 'Pfs'), 'cycle'), _r('TR1', dp.tr1, DIRECTED, ('Bfs', 'Dfs', 'Pfs'), 'cycle'), _r('PFS1', dp.pfs1, FLAVOURS, 'cycle'), _r('BT', rb.bt, FLAVOURS), _r('PATH', rb.path_api, FLAVOURS)],
+    rules=kernel_pack(('Bfs', 'Dfs', 'Pfs'), FLAVOURS, 'cycle') + [_r('RESMAP', dp.result_map, FLAVOURS, ('Bfs', 'Dfs', 'Pfs'), 'cycle'), _r('TR1', dp.tr1, DIRECTED, ('Bfs', 'Dfs', 'Pfs'), 'cycle'), _r('PFS1', dp.pfs1, FLAVOURS, 'cycle'), _r('BT', rb.bt, FLAVOURS), _r('PATH', rb.path_api, FLAVOURS), _r('PATH-hint', rb.path_hint, FLAVOURS)],
     explanation='12 cycle entries: target := key(root), root queued and not marked so that it can be re-discovered (CYC-INIT), then the same kernels (DISC/EXH/FRONT), transposed arms (TR1), '
                 'and back-tracking incl. BT-disjoint (the closing edge is not joined to itself).',
     decides='seeding of cycle searches, kernel discipline, back-tracking join and range',
@@ -153,11 +153,11 @@ PROPS['C10'] = dict(
 )
 
 PROPS['C17'] = dict(
-    rules=[_r('LK1', rg.g3, SYNC, strict=True), _r('LK2', rg.g2, SYNC, rule='LK2'), _r('LK3', rg.lk3, SYNC), _r('LK4', rg.lk4, SYNC), _r('LK5', rg.lk5, SYNC), _r('LK-TRY', rg.lk_try, SYNC), _r('IT2', rg.it2, SYNC), _r('IT1', rg.it1, SYNC)],
+    rules=[_r('LK1', rg.g3, SYNC, strict=True), _r('LK2', rg.g2, SYNC, rule='LK2'), _r('LK3', rg.lk3, SYNC), _r('LK4', rg.lk4, SYNC), _r('LK5', rg.lk5, SYNC), _r('LK-TRY', rg.lk_try, SYNC), _r('IT2', rg.it2, SYNC), _r('IT1', rg.it1, SYNC), _r('IT3', rg.it3, SYNC)],
     explanation='Only the lock-discipline clauses are decidable statically: no node lock is acquired while another node-lock guard is held, directly or through any callee (LK1: with '
                 'per-node locks and no lock order this is necessary against ABBA and re-entrant read-behind-writer deadlocks, and with LK2 sufficient for deadlock freedom among gdsl\'s '
                 'own locks); no user callback or iterator step runs under a lock (LK2); no panic-capable call under a write guard (LK3: poisoning); every public mutator is one critical '
-                'section, otherwise it is reported with the multiset of its sections (LK4: a necessary condition of serialisability). Iterators lock once per step (IT1/IT2). No index computed under one acquisition is used under another (LK5); no try_read/try_write/try_lock whose failure becomes a data outcome (LK-TRY).',
+                'section, otherwise it is reported with the multiset of its sections (LK4: a necessary condition of serialisability). Iterators lock once per step (IT1/IT2). No index computed under one acquisition is used under another (LK5); no try_read/try_write/try_lock whose failure becomes a data outcome (LK-TRY). The cursor of a node iterator may exceed the list another thread shortened between two steps, so an overridden provided method may not compute with it unguarded (IT3).',
     decides='hold-and-wait freedom, callback-under-lock freedom, poisoning sites, number and owners of critical sections per operation',
     does_not_decide='the serialisation order of schedules (linearizability), starvation, std RwLock itself; LK4 reports non-atomic operations but cannot prove atomic ones serialisable',
     assumptions=STD + ['payload trait impls do not take gdsl locks'],
